@@ -1135,7 +1135,9 @@ class FnTranslator:
                 self.bad(node, "mstate mode must be r or rw")
             if ms["type"] not in self.g.types:
                 self.bad(node, f"mstate type {ms['type']} is not declared")
-            if (self.receiver is None and not ms.get("py_param")) or self.receiver in declared:
+            if (self.receiver is None and not ms.get("py_param")) or (self.receiver in declared and not ms.get("py_param")):
+                # (when the state object is ANOTHER parameter — `def _write(self, writer)` — the receiver may be a structure:
+                # its attributes are ordinary fields, the state is only handed to the callees that work on it)
                 self.bad(node, "object state needs an erased receiver")
             if t.lambda_params:
                 self.bad(node, "lambda factory with an object state")
@@ -3841,7 +3843,7 @@ class FnTranslator:
             mine = self.t.mstate
             if not mine or mine["type"] != c.mstate["type"]:
                 self.bad(e, f"{c.lean_name} works on an object state of type {c.mstate['type']}, which {self.t.lean_name} does not carry")
-            if receiver is not None:
+            if receiver is not None and not c.mstate.get("py_param"):
                 self.bad(e, f"call of {c.lean_name} (object state) on a value")
             c_rw = c.mstate.get("mode", "rw") == "rw"
             if c_rw and not self.ms_rw():
